@@ -569,6 +569,7 @@ struct Emitter {
     functions: Vec<serde_json::Value>,
     trusted: Vec<String>,
     missing_anchors: Vec<String>,
+    unknown_calls: Vec<String>,
 }
 
 impl Emitter {
@@ -730,9 +731,44 @@ fn do_extract(args: &BTreeMap<String, String>) -> Result<(), String> {
     let dirs = spec::parse(&spec_text, cdir)?;
     let mut srcs: BTreeMap<String, Src> = BTreeMap::new();
     let mut cur_src: Option<String> = None;
-    let mut em = Emitter { lines: vec![], rules: BTreeMap::new(), functions: vec![], trusted: vec![], missing_anchors: vec![] };
+    let mut em = Emitter { lines: vec![], rules: BTreeMap::new(), functions: vec![], trusted: vec![], missing_anchors: vec![], unknown_calls: vec![] };
     let mut unit = String::new();
     let mut method_rewrites: Vec<(String, String, bool)> = Vec::new();
+    // ---- L2 pre-pass: registry of skeletonised functions ("Type::fn" -> (skeleton name, returns Result))
+    let mut skel_cfg = skel::Cfg::default();
+    let mut registry: BTreeMap<String, (String, bool)> = BTreeMap::new();
+    {
+        let mut cs: Option<String> = None;
+        for d in &dirs {
+            match d {
+                Dir::SkelCfg(p) => skel_cfg = skel::load_cfg(&format!("{}/{}", cdir, p))?,
+                Dir::Source(p) => {
+                    if !srcs.contains_key(p) {
+                        srcs.insert(p.clone(), Src::load(repo, p)?);
+                    }
+                    cs = Some(p.clone());
+                }
+                Dir::Take(t) if t.skel => {
+                    let sp = cs.clone().ok_or("@@skel before @@source")?;
+                    let src = &srcs[&sp];
+                    let found = find_item(&src.file, &t.sel)?;
+                    let (key, sig) = match &found {
+                        Found::ImplFn(_, f) => (format!("{}::{}", t.sel[1], t.sel[3]), &f.sig),
+                        Found::Item(syn::Item::Fn(f)) => (t.sel[1].clone(), &f.sig),
+                        Found::TraitImpl(im) => {
+                            // trait impl with a single fn (Drop::drop)
+                            let f = im.items.iter().find_map(|i| if let syn::ImplItem::Fn(f) = i { Some(f) } else { None }).ok_or("trait impl without fn")?;
+                            (format!("{}::{}", t.sel[1], f.sig.ident), &f.sig)
+                        }
+                        _ => return Err(format!("@@skel {}: not a function", t.sel.join(" "))),
+                    };
+                    let name = format!("sk_{}", key.replace("::", "_"));
+                    registry.insert(key, (name, skel::returns_result(src, sig)));
+                }
+                _ => {}
+            }
+        }
+    }
     for d in &dirs {
         match d {
             Dir::Unit(u) => unit = u.clone(),
@@ -743,6 +779,7 @@ fn do_extract(args: &BTreeMap<String, String>) -> Result<(), String> {
             }
             Dir::Raw(t) => em.raw(t, Some("raw")),
             Dir::RewriteMethod(a, b, c) => method_rewrites.push((a.clone(), b.clone(), *c)),
+            Dir::SkelCfg(_) => {}
             Dir::Source(p) => {
                 if !srcs.contains_key(p) {
                     srcs.insert(p.clone(), Src::load(repo, p)?);
@@ -792,6 +829,72 @@ fn do_extract(args: &BTreeMap<String, String>) -> Result<(), String> {
                     continue;
                 }
                 let fname_disp = take.sel[1..].iter().filter(|s| *s != "fn" && *s != "trait").cloned().collect::<Vec<_>>().join("::");
+                if take.skel {
+                    let (key, self_ty, sig, block): (String, String, &syn::Signature, &syn::Block) = match &found {
+                        Found::ImplFn(_, f) => (format!("{}::{}", take.sel[1], take.sel[3]), take.sel[1].clone(), &f.sig, &f.block),
+                        Found::Item(syn::Item::Fn(f)) => (take.sel[1].clone(), String::new(), &f.sig, &*f.block),
+                        Found::TraitImpl(im) => {
+                            let f = im.items.iter().find_map(|i| if let syn::ImplItem::Fn(f) = i { Some(f) } else { None }).ok_or("trait impl without fn")?;
+                            (format!("{}::{}", take.sel[1], f.sig.ident), take.sel[1].clone(), &f.sig, &f.block)
+                        }
+                        _ => return Err("@@skel: not a function".into()),
+                    };
+                    let (skname, retres) = registry.get(&key).cloned().ok_or("skeleton not registered")?;
+                    let mut cfg = skel_cfg.clone();
+                    let mut roles = take.roles.clone();
+                    roles.extend(cfg.roles.clone());
+                    cfg.roles = roles;
+                    let mut invs: BTreeMap<usize, String> = BTreeMap::new();
+                    let mut contract = String::new();
+                    for s in &take.subs {
+                        match s {
+                            Sub::Loop(n, _, t) => { invs.insert(*n, t.clone()); }
+                            Sub::Contract(t) => contract.push_str(t),
+                            _ => {}
+                        }
+                    }
+                    let drop_self = match &take.drop_self { Some(t) => Some(registry.get(t).map(|x| x.0.clone()).ok_or(format!("drop-self target {} not a skeleton", t))?), None => None };
+                    let exit_marker = cfg.exit_markers.iter().find(|(k, _)| *k == key).map(|(_, e)| e.clone());
+                    let so = skel::skeleton_of(src, &cfg, &registry, &self_ty, &skname, sig, block, invs, drop_self, exit_marker)?;
+                    let sl = src.line_of(src.range(block).0);
+                    let fdisp = key.clone();
+                    let first_line = em.lines.len() + 1;
+                    let hdr = if retres { format!("pub fn {}(w: &mut World) -> (ok: bool)", skname) } else { format!("pub fn {}(w: &mut World)", skname) };
+                    em.lines.push(OutLine { text: format!("// skeleton of {} ({}:{})", key, sp, sl), src: Some((sp.clone(), sl)), func: Some(fdisp.clone()), label: None });
+                    em.lines.push(OutLine { text: "#[verifier::exec_allows_no_decreases_clause] #[verifier::loop_isolation(false)]".into(), src: None, func: Some(fdisp.clone()), label: None });
+                    em.lines.push(OutLine { text: hdr, src: Some((sp.clone(), sl)), func: Some(fdisp.clone()), label: None });
+                    for (l, lab) in labelled_lines(&contract, "contract") {
+                        em.lines.push(OutLine { text: l, src: None, func: Some(fdisp.clone()), label: Some(format!("{}::{}", fdisp, lab)) });
+                    }
+                    em.lines.push(OutLine { text: "{".into(), src: None, func: Some(fdisp.clone()), label: None });
+                    for l in so.text.lines() {
+                        em.lines.push(OutLine { text: l.to_string(), src: Some((sp.clone(), sl)), func: Some(fdisp.clone()), label: None });
+                    }
+                    em.lines.push(OutLine { text: "}".into(), src: None, func: Some(fdisp.clone()), label: None });
+                    em.functions.push(json!({"name": fdisp, "source": sp, "src_line": sl, "gen_block_first_line": first_line, "gen_first_line": first_line,
+                        "gen_last_line": em.lines.len(), "kind": "skel", "has_contract": !contract.trim().is_empty(), "external_body": false, "events": so.events}));
+                    for (cname, ctext) in so.closures {
+                        let local = cname.rsplit("_closure_").next().unwrap_or("").to_string();
+                        let cc = take.closure_contracts.iter().find(|(n, _)| *n == local).map(|(_, t)| t.clone()).unwrap_or_default();
+                        let cdisp = format!("{}::closure[{}]", fdisp, local);
+                        let f0 = em.lines.len() + 1;
+                        em.lines.push(OutLine { text: "#[verifier::exec_allows_no_decreases_clause] #[verifier::loop_isolation(false)]".into(), src: None, func: Some(cdisp.clone()), label: None });
+                        em.lines.push(OutLine { text: format!("pub fn {}(w: &mut World) -> (ok: bool)", cname), src: Some((sp.clone(), sl)), func: Some(cdisp.clone()), label: None });
+                        for (l, lab) in labelled_lines(&cc, "contract") {
+                            em.lines.push(OutLine { text: l, src: None, func: Some(cdisp.clone()), label: Some(format!("{}::{}", cdisp, lab)) });
+                        }
+                        em.lines.push(OutLine { text: "{".into(), src: None, func: Some(cdisp.clone()), label: None });
+                        for l in ctext.lines() {
+                            em.lines.push(OutLine { text: l.to_string(), src: Some((sp.clone(), sl)), func: Some(cdisp.clone()), label: None });
+                        }
+                        em.lines.push(OutLine { text: "}".into(), src: None, func: Some(cdisp.clone()), label: None });
+                        em.functions.push(json!({"name": cdisp, "source": sp, "src_line": sl, "gen_block_first_line": f0, "gen_first_line": f0,
+                            "gen_last_line": em.lines.len(), "kind": "skel", "has_contract": !cc.trim().is_empty(), "external_body": false}));
+                    }
+                    for u in so.unknown_calls { em.unknown_calls.push(u); }
+                    *em.rules.entry("L2-skeleton".to_string()).or_insert(0) += 1;
+                    continue;
+                }
                 let mut auto = Auto { src, edits: vec![], errors: vec![], keep_derives_off: take.drop_derives.clone(), method_rewrites: method_rewrites.clone() };
                 let mut edits: Vec<Edit> = vec![];
                 let (range, header, footer): ((usize, usize), String, String);
@@ -961,7 +1064,7 @@ fn do_extract(args: &BTreeMap<String, String>) -> Result<(), String> {
     trusted.dedup();
     let m = json!({
         "unit": unit, "spec": spec_path, "lines": map, "rewrites": em.rules,
-        "functions": em.functions, "trusted": trusted, "missing_optional_anchors": em.missing_anchors,
+        "functions": em.functions, "trusted": trusted, "missing_optional_anchors": em.missing_anchors, "unclassified_calls": em.unknown_calls,
     });
     std::fs::write(map_path, serde_json::to_string(&m).unwrap()).map_err(|e| format!("{map_path}: {e}"))?;
     Ok(())
